@@ -281,6 +281,7 @@ def single_pool():
         singles.append(("gen", s))
         singles.append(("xml", s, "/a/b"))
     singles.append(("xml", 0, "/c"))
+    singles += [("whole", 0), ("whole", 3)]
     return list(dict.fromkeys(singles))
 
 
